@@ -96,7 +96,8 @@ def rand_frame(rng):
     """random decoder inputs with huge / overflowing / signed / malformed length fields"""
     lens = ["0", "1", "2", "3", "10", "99", "255", "4294967295", "4294967296", "18446744073709551615",
             "18446744073709551616", "99999999999999999999999", "-1", "+1", "+0", "01", "007", "", " ", "1e3",
-            "0x10", "１", "9223372036854775807", "9223372036854775808"]
+            "0x10", "１", "9223372036854775807", "9223372036854775808", "900000000000000000", "100000000000000", "9000000000", "2147483648",
+            "2147483647", "1073741824", "65536"]
     t = rand_type(rng)
     p = rand_payload(rng)
     l1 = rng.choice(lens + [str(len(t.encode()))] * 6)
@@ -114,6 +115,28 @@ def rand_frame(rng):
     return b
 
 
+def isolate_crash(binpath, case, o, res):
+    """a batch of decoder inputs (or pairs) killed the executor: find the input, reproduce it alone, report it"""
+    singles = [{"op": "pae", "packs": [], "unpacks": [b]} for b in case.get("unpacks", [])] + \
+              [{"op": "pae", "packs": [pr], "unpacks": []} for pr in case.get("packs", [])]
+    obs = common.run_batch(binpath, singles, keys=False)
+    found = False
+    for c1, o1 in zip(singles, obs):
+        if "crash" in o1:
+            o2 = common.run_batch(binpath, [c1], keys=False)[0]
+            if "crash" in o2:
+                found = True
+                what = "unpack of arbitrary bytes" if c1["unpacks"] else "pack/unpack of a pair"
+                inp = bytes.fromhex(c1["unpacks"][0])[:80] if c1["unpacks"] else c1["packs"][0][0][:40]
+                res.violate(f"{'unpack' if c1['unpacks'] else 'pack'}-kills-process:signal{o2['crash'].get('signal')}",
+                            f"{what} ended the process (signal {o2['crash'].get('signal')}, status {o2['crash'].get('rc')}) instead of returning a pair or an error; "
+                            f"input {inp!r}; reproduced in isolation", c1, o2, "pair or error")
+        elif c1["unpacks"] and "unpacks" in o1:
+            judge_unpack(c1["unpacks"][0], o1["unpacks"][0], res)
+    if not found:
+        res.inconclusive.append(f"executor failure not reproduced in isolation: {str(o)[:300]}")
+
+
 def shard_random(binpath, seed, shard, n):
     rng = common.rng_for(seed, PROP, shard)
     res = common.Result()
@@ -127,7 +150,10 @@ def shard_random(binpath, seed, shard, n):
     seen = {}
     for c, o in zip(cases, obs):
         if "packs" not in o:
-            res.inconclusive.append(f"executor failure: {str(o)[:300]}")
+            if "crash" in o:
+                isolate_crash(binpath, c, o, res)
+            else:
+                res.inconclusive.append(f"executor failure: {str(o)[:300]}")
             continue
         for (t, p), po in zip(c["packs"], o["packs"]):
             res.note(["pair", t, p], bool(t) or bool(p), cls="random_pair")
